@@ -318,7 +318,7 @@ func runC18(c *Ctx) {
 		good := true
 		why := ""
 		n := 0
-		for _, v := range valueSources(hdrSt.Val, f, 0) {
+		for _, v := range valueSourcesIP(hdrSt.Val, f, 0) {
 			if isNilConst(v) {
 				continue
 			}
@@ -349,7 +349,7 @@ func runC18(c *Ctx) {
 					good = false
 					continue
 				}
-				rfa, ok := isFieldLoadAny(rg.X, "Header")
+				rfa, ok := isFieldLoadAny(resolveParam(rg.X), "Header")
 				if !ok || rfa.X != src.X {
 					good, why = false, "header entries come from a different mirror entry than Host"
 				}
